@@ -137,9 +137,9 @@ pub fn run(run: &mut Run) {
     ];
     let thorough = run.thorough();
     let sel = if thorough {
-        Sel { m3: true, ep: Some(true), reach: Some(3), castle: Some(false), promo: Some(false), multicheck: Some(3), checkpin: Some(3), castle2: true, hemmed: true, counts: true, promorow: true, backrank: true, boxk: Some(2), hist: Some((3, 2)), ..Default::default() }
+        Sel { m3: true, ep: Some(true), reach: Some(3), castle: Some(false), promo: Some(false), multicheck: Some(3), checkpin: Some(3), castle2: true, hemmed: true, aligned: true, counts: true, promorow: true, backrank: true, boxk: Some(2), hist: Some((3, 2)), ..Default::default() }
     } else {
-        Sel { m3: true, ep: Some(false), reach: Some(3), multicheck: Some(2), checkpin: Some(1), castle2: true, hemmed: true, counts: true, promorow: true, backrank: true, boxk: Some(1), hist: Some((3, 0)), ..Default::default() }
+        Sel { m3: true, ep: Some(false), reach: Some(3), multicheck: Some(2), checkpin: Some(1), castle2: true, hemmed: true, aligned: true, counts: true, promorow: true, backrank: true, boxk: Some(1), hist: Some((3, 0)), ..Default::default() }
     };
     run_universes(run, &sel, DISAGREE, &check_pos);
     // MATERIAL carries its own clocks
